@@ -25,7 +25,9 @@ import (
 	"fmt"
 	"io"
 	"net"
+	"os"
 	"reflect"
+	"regexp"
 	"runtime"
 	"runtime/debug"
 	"sort"
@@ -51,9 +53,15 @@ type config struct {
 	tp    bool // TrustProxy with no trusted proxy: the peer is NOT trusted
 	srv   bool // driven through a real fasthttp server over loopback TCP (peer 127.0.0.1) instead of the
 	//            simulated connection loop (peer 10.0.0.7:4242)
+	// route table / handler chain in front of the endpoint (at most one of them):
+	//   hh  the endpoint route has two handlers; the first captures everything too, then Next()
+	//   mw  Use("/u/:tenant", first) in front of the endpoint: a second route matches after Next()
+	//   rr  like mw, but the middleware calls RestartRouting() on its first visit, Next() on the second
+	//   po  like mw, but the middleware overrides the path (c.Path("/u/ovr<name>/-/<rest>")) before Next()
+	chain string
 }
 
-var cfgFlags = []string{"cs", "ipv", "ph", "split", "srv", "tp"} // canonical (sorted) order
+var cfgFlags = []string{"cs", "hh", "ipv", "mw", "ph", "po", "rr", "split", "srv", "tp"} // canonical (sorted) order
 
 func (c config) flag(n string) bool {
 	switch n {
@@ -69,6 +77,8 @@ func (c config) flag(n string) bool {
 		return c.srv
 	case "tp":
 		return c.tp
+	case "hh", "mw", "po", "rr":
+		return c.chain == n
 	}
 	return false
 }
@@ -106,6 +116,11 @@ func decodeConfig(s string) (c config, ok bool) {
 			c.srv = true
 		case "tp":
 			c.tp = true
+		case "hh", "mw", "po", "rr":
+			if c.chain != "" {
+				return c, false
+			}
+			c.chain = x
 		default:
 			return c, false
 		}
@@ -885,6 +900,7 @@ func keysFor(q request) []string {
 	}
 	add("name")
 	add("NAME")
+	add("tenant")
 	add("*")
 	for _, p := range q.query {
 		add(p.k)
@@ -912,6 +928,52 @@ func keysFor(q request) []string {
 	return ks
 }
 
+// keysOf: the keys a keyed accessor is asked for. Known families get the keys of their own source plus
+// two foreign ones (a present name of another source, a missing one); an accessor the harness does not
+// know gets every key.
+func keysOf(method string, q request, all []string) []string {
+	seen := map[string]bool{}
+	var ks []string
+	add := func(k ...string) {
+		for _, x := range k {
+			if !seen[x] {
+				seen[x] = true
+				ks = append(ks, x)
+			}
+		}
+	}
+	pairs := func(ps []kv) {
+		for _, p := range ps {
+			add(p.k)
+		}
+	}
+	switch method {
+	case "Params":
+		add("name", "NAME", "tenant", "*", "zz-missing")
+	case "Query":
+		pairs(q.query)
+		add("name", "zz-missing")
+	case "FormValue":
+		pairs(q.query)
+		pairs(q.bform)
+		add("name", "upload", "zz-missing")
+	case "FormFile":
+		pairs(q.bfiles)
+		add("name", "upload", "zz-missing")
+	case "Cookies":
+		pairs(q.cookies)
+		add("name", "sid", "zz-missing")
+	case "Get", "GetReqHeader":
+		pairs(q.headers)
+		add("Host", "Content-Type", "Content-Length", "Content-Encoding", "Cookie", "name", "zz-missing")
+	case "GetRespHeader":
+		add("X-Resp", "X-Echo", "Content-Type", "Host", "zz-missing")
+	default:
+		return all
+	}
+	return ks
+}
+
 type bindTarget struct {
 	Name  string   `query:"name" form:"name" header:"X-Custom-A" respHeader:"X-Resp" cookie:"sid" uri:"name" json:"name"`
 	Tag   []string `query:"tag" form:"tag" header:"X-Token" respHeader:"X-Echo" cookie:"theme"`
@@ -922,11 +984,34 @@ type bindTarget struct {
 }
 
 type capturer struct {
-	caps []*captured
+	q      request
+	caps   []*captured
+	prefix string          // "" for the endpoint handler, "Mw." / "H1." for the handler in front of it
+	focus  map[string]bool // nil = every accessor; otherwise only these (see suspects)
+}
+
+// methodKey: the accessor an id belongs to, as the suspects are keyed (Pre./Req./Res. twins, generic
+// instantiations and bind targets fall together).
+func methodKey(id string) string {
+	for _, p := range []string{"Pre.", "Req.", "Res."} {
+		id = strings.TrimPrefix(id, p)
+	}
+	if i := strings.IndexAny(id, "(["); i >= 0 {
+		id = id[:i]
+	}
+	if strings.HasPrefix(id, "Bind.") {
+		if i := strings.IndexByte(id, ':'); i >= 0 {
+			id = id[:i]
+		}
+	}
+	return id
 }
 
 func (cc *capturer) call(id string, f func() []reflect.Value) {
-	cp := &captured{id: id}
+	if cc.focus != nil && !cc.focus[methodKey(id)] {
+		return
+	}
+	cp := &captured{id: cc.prefix + id}
 	func() {
 		defer func() {
 			if r := recover(); r != nil {
@@ -979,7 +1064,11 @@ func (cc *capturer) probeIface(prefix string, v reflect.Value, it reflect.Type, 
 		case fixed == 0:
 			cc.call(name, func() []reflect.Value { return fn.Call(nil) })
 		case fixed == 1 && mt.In(0).Kind() == reflect.String:
-			for _, k := range keys {
+			fam := m.Name
+			if prefix == "Res." && fam == "Get" {
+				fam = "GetRespHeader"
+			}
+			for _, k := range keysOf(fam, cc.q, keys) {
 				k := k
 				cc.call(name+"("+k+")", func() []reflect.Value { return fn.Call([]reflect.Value{reflect.ValueOf(k)}) })
 			}
@@ -997,22 +1086,32 @@ func (cc *capturer) probeIface(prefix string, v reflect.Value, it reflect.Type, 
 }
 
 // captureAll calls every text-yielding accessor on c. Panics of an accessor are recorded as a value.
-func captureAll(c fiber.Ctx, q request) []*captured {
-	cc := &capturer{}
+func captureAll(c fiber.Ctx, q request, prefix string, focus map[string]bool) []*captured {
+	cc := &capturer{q: q, prefix: prefix, focus: focus}
 	call := cc.call
 	keys := keysFor(q)
 	// First of all the getters that expose request storage most directly, BEFORE any other accessor has
 	// run: whatever a later accessor does to the request (in whatever order the reflection loop calls
 	// them) shows up when these are re-read at the end of the handler.
 	one := func(v any) []reflect.Value { return []reflect.Value{reflect.ValueOf(v)} }
-	for _, k := range keys {
+	for _, k := range keysOf("Get", q, keys) {
 		k := k
 		call("Pre.Get("+k+")", func() []reflect.Value { return one(c.Get(k)) })
+	}
+	for _, k := range keysOf("Cookies", q, keys) {
+		k := k
 		call("Pre.Cookies("+k+")", func() []reflect.Value { return one(c.Cookies(k)) })
+	}
+	for _, k := range keysOf("Query", q, keys) {
+		k := k
 		call("Pre.Query("+k+")", func() []reflect.Value { return one(c.Query(k)) })
+	}
+	for _, k := range keysOf("FormValue", q, keys) {
+		k := k
 		call("Pre.FormValue("+k+")", func() []reflect.Value { return one(c.FormValue(k)) })
 	}
 	call("Pre.Params(name)", func() []reflect.Value { return one(c.Params("name")) })
+	call("Pre.Params(tenant)", func() []reflect.Value { return one(c.Params("tenant")) })
 	call("Pre.Params(*)", func() []reflect.Value { return one(c.Params("*")) })
 	call("Pre.OriginalURL", func() []reflect.Value { return one(c.OriginalURL()) })
 	call("Pre.Path", func() []reflect.Value { return one(c.Path()) })
@@ -1025,12 +1124,18 @@ func captureAll(c fiber.Ctx, q request) []*captured {
 	cc.probeIface("Req.", reflect.ValueOf(c.Req()), reflect.TypeOf((*fiber.Req)(nil)).Elem(), keys)
 	cc.probeIface("Res.", reflect.ValueOf(c.Res()), reflect.TypeOf((*fiber.Res)(nil)).Elem(), keys)
 	// generic helpers
-	for _, k := range keys {
+	for _, k := range keysOf("Query", q, keys) {
 		k := k
 		call("Query[string]("+k+")", func() []reflect.Value { return []reflect.Value{reflect.ValueOf(fiber.Query[string](c, k))} })
 		call("Query[[]byte]("+k+")", func() []reflect.Value { return []reflect.Value{reflect.ValueOf(fiber.Query[[]byte](c, k))} })
+	}
+	for _, k := range keysOf("Params", q, keys) {
+		k := k
 		call("Params[string]("+k+")", func() []reflect.Value { return []reflect.Value{reflect.ValueOf(fiber.Params[string](c, k))} })
 		call("Params[[]byte]("+k+")", func() []reflect.Value { return []reflect.Value{reflect.ValueOf(fiber.Params[[]byte](c, k))} })
+	}
+	for _, k := range keysOf("GetReqHeader", q, keys) {
+		k := k
 		call("GetReqHeader[string]("+k+")", func() []reflect.Value {
 			return []reflect.Value{reflect.ValueOf(fiber.GetReqHeader[string](c, k))}
 		})
@@ -1214,19 +1319,23 @@ func serveTCP(app *fiber.App, reqs []request) bool {
 func observe(cfg config, q0 request, later []request) (used config, obs string, probed []string, ok bool) {
 	app := fiber.New(cfg.fiber())
 	app.RegisterCustomBinder(echoBinder{})
-	var caps []*captured
-	first := true
-	handler := func(c fiber.Ctx) error {
+	var caps, caps1 []*captured
+	first, first1, served := true, true, false
+	focus := curFocus
+	echo := func(c fiber.Ctx, param string) {
 		// response headers carrying request text: the response header storage is recycled too
-		c.Set("X-Resp", "r-"+c.Params("name"))
+		c.Set("X-Resp", "r-"+c.Params(param))
 		if v := c.Get("X-Custom-A"); v != "" {
 			c.Set("X-Echo", v)
 		}
+	}
+	handler := func(c fiber.Ctx) error {
+		echo(c, "name")
 		if first {
-			first = false
-			caps = captureAll(c, q0)
+			first, served = false, true
+			caps = captureAll(c, q0, "", focus)
 			// every accessor once more: none of them may disturb what another one handed out
-			_ = captureAll(c, q0)
+			_ = captureAll(c, q0, "", focus)
 			touch(c)
 			for _, cp := range caps {
 				cp.end = cp.read()
@@ -1236,16 +1345,63 @@ func observe(cfg config, q0 request, later []request) (used config, obs string, 
 		}
 		return c.SendString("ok")
 	}
-	app.All("/u/:name/-/*", handler)
+	// the handler in front of the endpoint: it captures every accessor as well and keeps the values
+	// while the router goes on to match another handler / route / restarts / follows a rewritten path
+	front := func(c fiber.Ctx) error {
+		param, prefix := "tenant", "Mw."
+		if cfg.chain == "hh" {
+			param, prefix = "name", "H1."
+		}
+		if c.Locals("c06-visited") != nil {
+			return c.Next() // rr: second visit after RestartRouting
+		}
+		echo(c, param)
+		capture := first1
+		if capture {
+			first1 = false
+			caps1 = captureAll(c, q0, prefix, focus)
+			_ = captureAll(c, q0, prefix, focus)
+		}
+		touch(c)
+		var err error
+		switch cfg.chain {
+		case "rr":
+			c.Locals("c06-visited", true)
+			err = c.RestartRouting()
+		case "po":
+			c.Path("/u/ovr" + c.Params("tenant") + "/-/" + c.Params("*"))
+			err = c.Next()
+		default:
+			err = c.Next()
+		}
+		if capture {
+			for _, cp := range caps1 {
+				cp.end = cp.read()
+			}
+		}
+		return err
+	}
+	switch cfg.chain {
+	case "hh":
+		app.All("/u/:name/-/*", front, handler)
+	case "mw", "rr":
+		app.Use("/u/:tenant", front)
+		app.All("/u/:name/-/*", handler)
+	case "po":
+		app.Use("/u/:tenant/-/*", front)
+		app.All("/u/:name/-/*", handler)
+	default:
+		app.All("/u/:name/-/*", handler)
+	}
 	if cfg.srv {
-		if !serveTCP(app, append([]request{q0}, later...)) || caps == nil {
+		if !serveTCP(app, append([]request{q0}, later...)) || !served {
 			cfg.srv = false
 			return observe(cfg, q0, later)
 		}
 	} else {
 		w := &worker{h: app.Handler(), fctx: &fasthttp.RequestCtx{}, conn: fakeConn{&net.TCPAddr{IP: net.IPv4(10, 0, 0, 7), Port: 4242}}}
 		w.fctx.Init2(w.conn, nil, false)
-		if err := w.serve(q0.wire()); err != nil || caps == nil {
+		if err := w.serve(q0.wire()); err != nil || !served {
 			return cfg, "unserved", nil, false
 		}
 		for _, l := range later {
@@ -1254,13 +1410,20 @@ func observe(cfg config, q0 request, later []request) (used config, obs string, 
 			}
 		}
 	}
+	caps = append(caps1, caps...)
 	parts := make([]string, len(caps))
 	for i, cp := range caps {
 		after := "na"
 		if cfg.imm {
 			after = cp.read()
 		}
-		parts[i] = cp.id + "=" + cp.during + "/" + cp.end + "/" + after
+		// compact form for the usual outcome: `id=value` stands for value/value/value (value/value/na
+		// without the option)
+		if cp.end == cp.during && (after == cp.during || !cfg.imm) {
+			parts[i] = cp.id + "=" + cp.during
+		} else {
+			parts[i] = cp.id + "=" + cp.during + "/" + cp.end + "/" + after
+		}
 		probed = append(probed, cp.id)
 	}
 	return cfg, strings.Join(parts, ";"), probed, true
@@ -1278,6 +1441,87 @@ func encodeLater(later []request) string {
 }
 
 var probedAll = map[string]bool{}
+
+// curFocus: accessors to probe in the case being executed (nil = all of them).
+var curFocus map[string]bool
+
+// suspects reads the regenerated provenance table (the one the Lean obligation is decided on) and
+// returns the accessors whose rows do not meet the criteria: a return site reachable with Immutable
+// that yields alias / unknown (or a request object outside Bind), or an in-place write that is not one
+// of the documented exceptions. When there are some, three cases out of four probe ONLY those accessors
+// (and their Pre./Req./Res./generic twins): such a case costs a fraction of a full one, so the widened
+// search that follows a broken obligation spends its budget on the accessor the obligation names, over
+// more route tables and histories. nil when the table is fine, unreadable, or a conversion row is broken
+// (then every accessor is affected).
+func suspects() map[string]bool {
+	var data []byte
+	for _, p := range []string{os.Getenv("C06_FACTS"), "../../lean/FiberModel/Generated/C06Facts.lean",
+		"../lean/FiberModel/Generated/C06Facts.lean", "lean/FiberModel/Generated/C06Facts.lean", "/verif/lean/FiberModel/Generated/C06Facts.lean"} {
+		if p == "" {
+			continue
+		}
+		if b, err := os.ReadFile(p); err == nil {
+			data = b
+			break
+		}
+	}
+	if data == nil {
+		return nil
+	}
+	row := regexp.MustCompile(`^\s*⟨\.(\w+), "([^"]+)", \[(.*)\], \[(.*)\]⟩,?$`)
+	site := regexp.MustCompile(`⟨\.(\w+), \[([^\]]*)\]⟩`)
+	out := map[string]bool{}
+	for _, line := range strings.Split(string(data), "\n") {
+		m := row.FindStringSubmatch(line)
+		if m == nil {
+			continue
+		}
+		kind, name, rets, writes := m[1], m[2], m[3], m[4]
+		bad := false
+		for _, sm := range site.FindAllStringSubmatch(rets, -1) {
+			if sm[1] == "mutOnly" {
+				continue
+			}
+			for _, a := range strings.Split(sm[2], ",") {
+				switch strings.TrimSpace(a) {
+				case ".alias", ".unknown", "":
+					bad = true
+				case ".reqobj":
+					if kind != "bind" {
+						bad = true
+					}
+				}
+			}
+		}
+		if writes != "" {
+			switch name {
+			case "Path", "Body", "Req.Path", "Req.Body":
+			default:
+				bad = true
+			}
+		}
+		if !bad {
+			continue
+		}
+		switch kind {
+		case "conv":
+			return nil
+		case "binder": // binder.QueryBinding.Bind:value -> Bind.Query (and Body, which dispatches to Form)
+			n := strings.TrimPrefix(name, "binder.")
+			if i := strings.Index(n, "Binding"); i > 0 {
+				out["Bind."+n[:i]] = true
+				out["Bind.Body"] = true
+			}
+		default:
+			out[methodKey(name)] = true
+		}
+	}
+	if len(out) == 0 {
+		return nil
+	}
+	// what the suspects are built on is probed as well when a Bind source is among them
+	return out
+}
 
 func emit(w *gen.Writer, id string, cfg config, q0 request, later []request) {
 	want := cfg
@@ -1336,6 +1580,7 @@ func main() {
 		return
 	}
 	root := gen.New(o.Seed)
+	susp := suspects()
 	maxLater := 9
 	if o.Tier == "thorough" {
 		maxLater = 13
@@ -1345,6 +1590,17 @@ func main() {
 		q0 := genRequest(r)
 		cfg := config{imm: !r.Chance(1, 4), cs: r.Chance(1, 4), split: r.Chance(1, 3), ph: r.Chance(1, 4), ipv: r.Chance(1, 6), tp: r.Chance(1, 6),
 			srv: r.Chance(1, 40)}
+		if r.Chance(1, 3) {
+			cfg.chain = gen.Pick(r, []string{"hh", "mw", "mw", "rr", "po"})
+			if cfg.chain == "po" && !cfg.imm {
+				cfg.chain = "mw" // rewriting the path is the handler's own doing: only the copies must survive it
+			}
+		}
+		curFocus = nil
+		if susp != nil && i%4 != 0 {
+			curFocus = susp
+			w.Count("focused")
+		}
 		var later []request
 		n := r.Intn(maxLater)
 		if cfg.imm && n == 0 {
